@@ -79,6 +79,8 @@ def run_symgo(module_dir, harness_paths, pkgname, run_re, steps=None, depth=None
     if env:
         e.update(env)
     r = subprocess.run(cmd, env=e, capture_output=True, text=True)
+    if r.returncode == 2 and "no harness matches" in r.stderr:
+        return {"harnesses": [], "_exit": 0, "_stderr": r.stderr, "load_s": 0, "target_packages": []}
     if r.returncode not in (0, 1, 3):
         print("symgo failed (exit %d):\n%s%s" % (r.returncode, r.stdout[-3000:], r.stderr[-3000:]), file=sys.stderr)
         sys.exit(2)
